@@ -696,6 +696,11 @@ def make_chain_gfa(rng, n_chrom=None, style=None, size="small", extra_tags=0.2, 
     rng.shuffle(names)
     names = names[:n_chrom]
     for c in names:
+        if rng.random() < 0.12:
+            # a chromosome that is ONE segment (chrM-like): it takes exactly one BO, and the next chromosome's range starts after it
+            # (added after seeded change C06-6)
+            b.seg(c, rng.choice([0, 0, 7]), 0)
+            continue
         if size == "tiny":
             n_back, n_ears = rng.randint(1, 3), rng.randint(0, 1)
         elif size == "small":
